@@ -34,6 +34,11 @@ func (o *objectIncludeStrategy) evaluate(m *MethodEvaluator) error {
 		return err
 	}
 
+	if nextT.IsNewLineIdentifier() {
+		m.parser.Unget()
+		return fmt.Errorf("%s needs a module name", m.method)
+	}
+
 	classNode := base.ClassNode{Frame: m.ctx.GetFrame(), Class: m.ctx.GetClass()}
 
 	parentFrame, parentNamespace, parentClass :=
